@@ -138,8 +138,17 @@ def _arrays(np, schema, vals):
     return out
 
 
+class HeaderNum(float):
+    """A header quantity that has to be written as a YAML integer (e.g. `BoxSize: 2000`): arithmetic in this harness treats
+    it as the float it is, the file gets the int."""
+
+
+def _hnum(v):
+    return int(v) if isinstance(v, HeaderNum) else float(v)
+
+
 def header(box, zkms, extra=None):
-    h = {'BoxSize': float(box), 'VelZSpace_to_kms': float(zkms), 'SimName': SIM, 'Redshift': 0.0, 'H0': 64.0,
+    h = {'BoxSize': _hnum(box), 'VelZSpace_to_kms': _hnum(zkms), 'SimName': SIM, 'Redshift': 0.0, 'H0': 64.0,
          'ParticleMassHMsun': 1024.0, 'NP': 4096, 'ppd': 16.0, 'CPD': 3, 'OutputFormat': 'RVint',
          'ScaleFactor': 1.0, 'VelZSpace_to_Canonical': 1.0, 'SODensityL1': 200.0}
     if extra:
@@ -153,6 +162,9 @@ def write_catalog(root, spec):
     import asdf
     import numpy as np
     box, zkms = spec['box'], spec['zkms']
+    if spec.get('int_header'):       # integral header values written as YAML integers, as some catalogs have them
+        box = HeaderNum(box) if float(box).is_integer() else box
+        zkms = HeaderNum(zkms) if float(zkms).is_integer() else zkms
     if spec.get('lc'):
         d = os.path.join(root, 'halo_light_cones', SIM, 'z0.500')
         os.makedirs(d, exist_ok=True)
